@@ -260,6 +260,12 @@ func genScript(c *kernel.RunCtx, n int, pushOnly bool) []byte {
 				depth++
 			}
 		case 4:
+			if c.Bool(1, 12) {
+				// a comparison / signature-check result fed straight into a shift (results are fresh stack items)
+				s = append(s, 0x51+byte(c.Choose(3)), 0x51+byte(c.Choose(3)), []byte{0x87, 0x9c, 0xa0}[c.Choose(3)], 0x51+byte(c.Choose(8)), 0x98+byte(c.Choose(2)))
+				c.End()
+				continue
+			}
 			switch c.Pick(8, 1, 1) {
 			case 0:
 				s = append(s, genOps.splice[c.Choose(len(genOps.splice))])
@@ -508,6 +514,32 @@ func checkProgram(c *kernel.RunCtx, p *program, seeded scribbleMode, nAttach int
 		if d := diffHistoriesLoose(rec.events[k:], r.events[first:]); d != "" {
 			c.Fail("resume", site, "the run resumed from the BeforeStep snapshot of callback %d diverges from the original: %s (%s flags %x unlock %x lock %x)", k, d, p.src, uint32(p.flags), p.unlock, p.lock)
 			return
+		}
+		// "attaching a debugger never changes the verdict" on the injected-state route as well: start from an
+		// EDITED snapshot (top of the data stack replaced) with and without an observer
+		edit := func() *interpreter.State {
+			e := cloneState(rec.states[k])
+			if n := len(e.DataStack); n > 0 {
+				if len(e.DataStack[n-1]) == 0 {
+					e.DataStack[n-1] = []byte{1}
+				} else {
+					e.DataStack[n-1] = []byte{}
+				}
+			} else {
+				e.DataStack = append(e.DataStack, []byte{1}, []byte{})
+			}
+			return e
+		}
+		c.Exec()
+		oPlain := execProgramOn(interpreter.NewEngine(), p, nil, interpreter.WithState(edit()))
+		c.Exec()
+		oObs := execProgramOn(interpreter.NewEngine(), p, &recorder{max: maxEvents}, interpreter.WithState(edit()))
+		if !oPlain.same(oObs) {
+			c.Fail("verdict", site, "started from an edited snapshot (callback %d) the execution gives %s without a debugger and %s with one (%s flags %x unlock %x lock %x)", k, oPlain, oObs, p.src, uint32(p.flags), p.unlock, p.lock)
+			return
+		}
+		if !oPlain.same(o0) {
+			c.Count("probe.edited_state_changed_verdict", 1)
 		}
 	}
 	// fan-out
